@@ -17,7 +17,8 @@ False of the code for `lit8` (Info fields, outline titles, annotation contents, 
 write) and `hex8` (incremental form fill): the UTF-8 bytes of the Rust string are written and read
 through a single-byte table.  Proved instead: the `_partial` theorems for the alphabets on which the
 code is right, kernel-checked witnesses for what it gets wrong, and — for the proposed repair
-(`fixToken`) — the FULL statement for both readers and every text (`C10_fix_roundtrip`).
+`Object::text_string` (carriers `txt`, `txtHex`) — the FULL statement for both readers and every
+text (`C10_text_string_roundtrip`); the sites move to it one repair at a time (see `Drv/C10.lean`).
 -/
 namespace OxiVerif.C10
 open OxiVerif.AnnexD (Enc)
@@ -131,10 +132,10 @@ theorem libRead_hex (bs rest : List Nat) (hb : allB (fun b => b < 256) bs = true
   unfold libRead incWriteString
   rw [C09.lib_next_hexstr bs rest hb]
 
-theorem specRead_lit (bs rest : List Nat) (hs : NoCR bs = true) :
+theorem specRead_lit (bs rest : List Nat) :
     specRead (ser (.str bs)) rest = some (specDecode bs) := by
   unfold specRead
-  have := C09.spec_obj_roundtrip (.str bs) rest 1 (by simpa [C09.SafeSpec] using hs) (by simp [C09.need])
+  have := C09.spec_obj_roundtrip (.str bs) rest 1 (by simp [C09.SafeSpec]) (by simp [C09.need])
   have e : ser (.str bs) = serRaw (.str bs) := rfl
   rw [e, this]
   rfl
@@ -239,16 +240,16 @@ theorem C10_ascii_lib_partial (s : List Nat) (h : ∀ c ∈ s, c < 0x80) :
 example : libRoundtrip .lit8 [0x28, 0x29, 0x5C, 0x0D, 0x0A, 0, 0x7F] = some [0x28, 0x29, 0x5C, 0x0D, 0x0A, 0, 0x7F] := by
   decide +kernel
 
-/-- Partial, independent reader, `Object::String` sites: HT, LF and printable ASCII (CR excluded —
-see `C10_witness_cr`). -/
-theorem C10_ascii_spec_literal_partial (s : List Nat) (h : ∀ c ∈ s, PdfDocAscii c ∧ c ≠ 13) :
+/-- Partial, independent reader, (old) `Object::String` carrier: HT, LF, CR and printable ASCII (CR since
+the writer escapes it as `\\r`; before that repair see `C10_witness_cr`). -/
+theorem C10_ascii_spec_literal_partial (s : List Nat) (h : ∀ c ∈ s, PdfDocAscii c) :
     specRoundtrip .lit8 s = some s := by
-  have ha : ∀ c ∈ s, c < 0x80 := fun c hc => by have := (h c hc).1; unfold PdfDocAscii at this; omega
+  have ha : ∀ c ∈ s, c < 0x80 := fun c hc => by have := h c hc; unfold PdfDocAscii at this; omega
   simp only [specRoundtrip, token]
-  rw [utf8_ascii s ha, specRead_lit _ _ (noCR_of s fun c hc => (h c hc).2),
-    specDecode_noBom s (ascii_noBom s ha), map_id_of _ s fun c hc => pdfdoc_ascii c (h c hc).1]
+  rw [utf8_ascii s ha, specRead_lit, specDecode_noBom s (ascii_noBom s ha),
+    map_id_of _ s fun c hc => pdfdoc_ascii c (h c hc)]
 
-example : specRoundtrip .lit8 [0x28, 0x29, 0x5C, 0x0A, 0x09, 0x7E] = some [0x28, 0x29, 0x5C, 0x0A, 0x09, 0x7E] := by
+example : specRoundtrip .lit8 [0x28, 0x29, 0x5C, 0x0A, 0x0D, 0x09, 0x7E] = some [0x28, 0x29, 0x5C, 0x0A, 0x0D, 0x09, 0x7E] := by
   decide +kernel
 
 /-- Partial, independent reader, incremental fill (hexadecimal string: CR survives). -/
@@ -281,14 +282,14 @@ theorem C10_witness_full_false :
   revert h1
   decide +kernel
 
-/-- a carriage return is written raw into the literal; §7.3.4.2 makes an independent reader see a line
-feed (the library's own lexer does not normalise, so only third-party readers disagree).  Not so in
-the hexadecimal string of the incremental fill. -/
+/-- Regression (before the CR repair): a carriage return written raw into the literal is read as a
+line feed by an independent reader (§7.3.4.2); with the repaired `escape_pdf_string_bytes` it survives. -/
 theorem C10_witness_cr :
-    token .lit8 [0x41, 0x0D, 0x42] = [0x28, 0x41, 0x0D, 0x42, 0x29] ∧
-    libRoundtrip .lit8 [0x41, 0x0D, 0x42] = some [0x41, 0x0D, 0x42] ∧
-    specRoundtrip .lit8 [0x41, 0x0D, 0x42] = some [0x41, 0x0A, 0x42] ∧
-    specRoundtrip .lit8 [0x41, 0x0D, 0x0A, 0x42] = some [0x41, 0x0A, 0x42] := by
+    tokenRawCR [0x41, 0x0D, 0x42] = [0x28, 0x41, 0x0D, 0x42, 0x29] ∧
+    specRead (tokenRawCR [0x41, 0x0D, 0x42]) [10] = some [0x41, 0x0A, 0x42] ∧
+    specRead (tokenRawCR [0x41, 0x0D, 0x0A, 0x42]) [10] = some [0x41, 0x0A, 0x42] ∧
+    token .lit8 [0x41, 0x0D, 0x42] = [0x28, 0x41, 0x5C, 0x72, 0x42, 0x29] ∧
+    specRoundtrip .lit8 [0x41, 0x0D, 0x42] = some [0x41, 0x0D, 0x42] := by
   decide +kernel
 
 /-- U+0018 … U+001F are written as the bytes 18 … 1F, which PDFDocEncoding assigns to the accents
@@ -305,91 +306,52 @@ theorem C10_witness_fill_refuses :
     fillAccepts [0x41, 0xF1, 0x20AC] = true := by
   decide +kernel
 
-/-! ## T3 — the repair is right for every text -/
+/-! ## T3 — `Object::text_string` / `text_string_bytes`: right for every text -/
 
-theorem fix_lib_readLit (s rest : List Nat) :
-    Lexer.readLit 0 .normal (fixEscape s ++ 41 :: rest) = .ok (s, rest) := by
-  induction s with
-  | nil => simp [fixEscape, Lexer.readLit]
-  | cons x xs ih =>
-    by_cases h92 : x = 92
-    · subst h92; simp [fixEscape, Lexer.readLit, Lexer.consOut, Lexer.isOctal, ih]
-    · by_cases h40 : x = 40
-      · subst h40; simp [fixEscape, Lexer.readLit, Lexer.consOut, Lexer.isOctal, ih]
-      · by_cases h41 : x = 41
-        · subst h41; simp [fixEscape, Lexer.readLit, Lexer.consOut, Lexer.isOctal, ih]
-        · by_cases h13 : x = 13
-          · subst h13; simp [fixEscape, Lexer.readLit, Lexer.consOut, Lexer.isOctal, ih]
-          · simp [fixEscape, Lexer.readLit, Lexer.consOut, h92, h40, h41, h13, ih]
+theorem safe_props (s : List Nat) (h : s.all safeAscii = true) :
+    (∀ c ∈ s, c < 0x80) ∧ (∀ c ∈ s, PdfDocAscii c) := by
+  rw [List.all_eq_true] at h
+  constructor <;> intro c hc <;> have := h c hc <;>
+    simp only [safeAscii, Bool.or_eq_true, Bool.and_eq_true, beq_iff_eq, decide_eq_true_eq] at this <;>
+    (try unfold PdfDocAscii) <;> omega
 
-theorem fix_spec_readLit (s rest : List Nat) :
-    Syntax.readLit 0 .normal (fixEscape s ++ 41 :: rest) = some (s, rest) := by
-  induction s with
-  | nil => simp [fixEscape, Syntax.readLit]
-  | cons x xs ih =>
-    by_cases h92 : x = 92
-    · subst h92; simp [fixEscape, Syntax.readLit, Syntax.consOut, Syntax.isOctal, ih]
-    · by_cases h40 : x = 40
-      · subst h40; simp [fixEscape, Syntax.readLit, Syntax.consOut, Syntax.isOctal, ih]
-      · by_cases h41 : x = 41
-        · subst h41; simp [fixEscape, Syntax.readLit, Syntax.consOut, Syntax.isOctal, ih]
-        · by_cases h13 : x = 13
-          · subst h13; simp [fixEscape, Syntax.readLit, Syntax.consOut, Syntax.isOctal, ih]
-          · simp [fixEscape, Syntax.readLit, Syntax.consOut, h92, h40, h41, h13, ih]
-
-theorem fix_libRead_lit (s rest : List Nat) :
-    libRead (40 :: (fixEscape s ++ [41])) rest = some (libDecode s) := by
-  unfold libRead
-  have := fix_lib_readLit s rest
-  simp [Lexer.next, Lexer.nextToken, Lexer.isAsciiWs, this]
-
-theorem fix_specRead_lit (s rest : List Nat) :
-    specRead (40 :: (fixEscape s ++ [41])) rest = some (specDecode s) := by
-  unfold specRead
-  have := fix_spec_readLit s rest
-  simp [Syntax.readObj, Syntax.skip, Syntax.isWhite, this]
-
-/-- on the `single` alphabet both single-byte tables are the identity (all 256 slots checked) -/
-theorem single_tables (b : Nat) (h : single b = true) :
-    (C25.winansiDecodeChar b).getD b = b ∧ (AnnexD.dec .pdfDoc b).getD 0xFFFD = b := by
-  have key : ∀ i : Fin 256, single i.val = true →
-      (C25.winansiDecodeChar i.val).getD i.val = i.val ∧ (AnnexD.dec .pdfDoc i.val).getD 0xFFFD = i.val := by
-    decide +kernel
-  have hb : b < 256 := by
-    simp only [single, Bool.or_eq_true, Bool.and_eq_true, beq_iff_eq, decide_eq_true_eq, bne_iff_ne] at h
-    omega
-  exact key ⟨b, hb⟩ h
-
-/-- FULL property for the repaired writer: for EVERY text (any length, all scalar values) the
-library and an independent reader both read back exactly the text — including texts with CR, NUL,
-unbalanced parentheses, backslashes, a leading "þÿ" or U+FEFF, and astral characters. -/
-theorem C10_fix_roundtrip (s rest : List Nat) (h : ∀ c ∈ s, IsScalar c) :
-    libRead (fixToken s) rest = some s ∧ specRead (fixToken s) rest = some s := by
-  unfold fixToken
-  by_cases hu : fixUsesBytes s = true
-  · rw [if_pos hu]
-    simp only [fixUsesBytes, Bool.and_eq_true, List.all_eq_true, Bool.not_eq_true'] at hu
-    rw [fix_libRead_lit, fix_specRead_lit, libDecode_noBom s hu.2, specDecode_noBom s hu.2,
-      map_id_of _ s fun c hc => (single_tables c (hu.1 c hc)).1,
-      map_id_of _ s fun c hc => (single_tables c (hu.1 c hc)).2]
-    exact ⟨rfl, rfl⟩
-  · rw [if_neg hu, libRead_hex _ _ (bom16_bytes s h), specRead_hex _ _ (bom16_bytes s h),
+/-- FULL property for every site that writes through `text_string` (document writer) or
+`text_string_bytes` (incremental fill): for EVERY text (any length, all scalar values — CR, NUL, the
+accent slots, unbalanced parentheses, backslashes, a leading "þÿ" or U+FEFF, astral characters) the
+library and an independent reader both read back exactly the text. -/
+theorem C10_text_string_roundtrip (s : List Nat) (h : ∀ c ∈ s, IsScalar c) :
+    (libRoundtrip .txt s = some s ∧ specRoundtrip .txt s = some s) ∧
+    (libRoundtrip .txtHex s = some s ∧ specRoundtrip .txtHex s = some s) := by
+  simp only [libRoundtrip, specRoundtrip, token, textPayload]
+  by_cases hs : s.all safeAscii = true
+  · obtain ⟨ha, hp⟩ := safe_props s hs
+    have hb : allB (fun b => b < 256) (utf8 s) = true := utf8_bytes s h
+    simp only [hs, if_true]
+    rw [libRead_lit, specRead_lit, libRead_hex _ _ hb, specRead_hex _ _ hb, utf8_ascii s ha,
+      libDecode_noBom s (ascii_noBom s ha), specDecode_noBom s (ascii_noBom s ha),
+      map_id_of _ s fun c hc => winansi_ascii c (ha c hc), map_id_of _ s fun c hc => pdfdoc_ascii c (hp c hc)]
+    exact ⟨⟨rfl, rfl⟩, rfl, rfl⟩
+  · simp only [hs, if_false, Bool.false_eq_true]
+    have e : ser (.hexstr (bom16 s)) = incWriteString (bom16 s) := rfl
+    rw [e, libRead_hex _ _ (bom16_bytes s h), specRead_hex _ _ (bom16_bytes s h),
       libDecode_bom16 s h, specDecode_bom16 s h]
-    exact ⟨rfl, rfl⟩
+    exact ⟨⟨rfl, rfl⟩, rfl, rfl⟩
 
-/-- both branches are inhabited; "þÿ" takes the UTF-16 branch although both characters are `single` -/
-example : fixUsesBytes [0x41, 0x0D, 0x28, 0xF1] = true ∧ fixUsesBytes [0xFE, 0xFF, 0x41] = false ∧
-    fixUsesBytes [0x2713] = false ∧ fixToken [0x0D, 0x29] = [40, 92, 114, 92, 41, 41] := by decide
-example : libRead (fixToken [0xFE, 0xFF, 0x41, 0x1F600]) [10] = some [0xFE, 0xFF, 0x41, 0x1F600] := by decide +kernel
+/-- both branches are inhabited -/
+example : token .txt [0x41, 0x28, 0x0A] = [0x28, 0x41, 0x5C, 0x28, 0x0A, 0x29] ∧
+    token .txt [0x41, 0x0D] = [0x3C, 0x46, 0x45, 0x46, 0x46, 0x30, 0x30, 0x34, 0x31, 0x30, 0x30, 0x30, 0x44, 0x3E] := by
+  decide +kernel
+example : libRoundtrip .txt [0xFE, 0xFF, 0x41, 0x1F600, 0x18, 0x0D] = some [0xFE, 0xFF, 0x41, 0x1F600, 0x18, 0x0D] := by
+  decide +kernel
 
 /-- without the guard the bytes FE FF of "þÿA" would be taken for a byte-order mark -/
 theorem C10_witness_bom_prefix : libDecode [0xFE, 0xFF, 0x41] ≠ [0xFE, 0xFF, 0x41] ∧
     specDecode [0xFE, 0xFF, 0x00, 0x41] = [0x41] := by decide +kernel
 
-/-- BOM + UTF-16BE inside a LITERAL string written with today's `escape_pdf_string_bytes` would
-still be wrong for an independent reader whenever a byte 0D occurs (U+000D, U+0D41, U+410D …): the
-reason the repair escapes CR / uses a hexadecimal string. -/
+/-- Regression (before the CR repair): BOM + UTF-16BE inside a LITERAL string written with a raw CR
+is wrong for an independent reader whenever a byte 0D occurs (U+000D, U+0D41, U+410D …). -/
 theorem C10_witness_utf16_in_literal_needs_cr_escape :
-    specRead (ser (.str (bom16 [0x0D41]))) [10] = some [0x0A41] := by decide +kernel
+    specRead (serStrRawCR (bom16 [0x0D41])) [10] = some [0x0A41] ∧
+    specRead (ser (.str (bom16 [0x0D41]))) [10] = some [0x0D41] := by decide +kernel
 
 end OxiVerif.C10
